@@ -55,6 +55,15 @@ class BooleanOption(ConfigOption[bool]):
         if disables:
             group.add_argument(*disables, dest=self.name, help=self.description + formatDefault(self.value), action='store_false', default=None)
 
+    def setFromString(self, string: str):
+        value = string.strip().lower()
+        if value in ('1', 'yes', 'true', 'on'):
+            self.value = True
+        elif value in ('0', 'no', 'false', 'off'):
+            self.value = False
+        else:
+            raise ValueError('Not a boolean: %s' % string)
+
 class MultiStringOption(ConfigOption[List[str]]):
     def registerArgparse(self, group: ArgumentGroup):
         group.add_argument(*self.options, dest=self.name, type=str, nargs="*", help=self.description, action="append")
